@@ -123,7 +123,7 @@ PROPS["C05"] = dict(
     trusted_base=_CTL_TB + ["below the driver seam: the real perio.Server of the 'perio' stream (injected ticks), with the predicate 'removing one session's periodic URR leaves the registrations of every other session' (Driver/Perio.lean checkOthers)"], assumptions=_CTL_ASSUME,
     level_text="Kernel-checked (Props/C05.lean): driver calls of a Modification/Deletion Request carry the addressed SEID; the request rewrites only that session's "
                "slot (every other SEID resolves to the same value: rules, counters, queues); re-association touches only SEIDs in the node's own set; SEID-0 removal "
-               "matches CP SEID and node address. Tie: S-ctl 'nodes' + frame predicates on the implementation's dumps. seid0_complete — the SEID-0 search finds a session with the answered request's control-plane SEID and the responder's address whenever one is live, however many sessions of other nodes carry the same control-plane SEID and wherever they sit in the table.",
+               "matches CP SEID and node address. Tie: S-ctl 'nodes' + frame predicates on the implementation's dumps. seid0_complete — the SEID-0 search finds a session with the answered request's control-plane SEID and the responder's address whenever one is live, however many sessions of other nodes carry the same control-plane SEID and wherever they sit in the table. reset_sweeps — after a re-association every SEID of the node's own set resolves to nothing, whatever order the sessions are closed in and whatever the data plane answers (with reset_frame: and no other SEID is touched).",
     level_note="Trusted: as C01. The frame theorems are about the node OBJECT registered under an id (what the code keys on). The external ownership predicate reads the statement by the requests: a session "
                "belongs to the node id of its Establishment Request, later to the node id of a Modification Request that takes THAT session over; re-association of N must remove exactly those. "
                "The code's takeover renames the whole node object and can orphan a registered node: known finding takeoverNode (signature only in histories that contain a takeover; corpus/nodes.cases witnesses it on every run; Props/C05.takeover_orphans proves the witness on the model by evaluation).",
@@ -149,7 +149,7 @@ PROPS["C10"] = dict(
     level_text="Kernel-checked (Props/C10.lean): a usage batch for a live session is answered by exactly one Session Report Request to the owner with the peer's SEID; "
                "each IE carries URR id, trigger and measured values unchanged, measurement IEs selected by method/MNOP; each_ie_from_its_report / ies_le_reports — in a message carrying any number "
                "of usage reports every IE has the id, trigger word (plus the carrier's flag only), counters, times and duration of ONE of the reports handed over, and there are no more IEs than reports; "
-               "report_goes_to_owner — whatever a notification carries (downlink-data reports and usage reports in any number and order) every datagram it causes goes to the destination of the node owning the reporting session at that moment, none elsewhere; "
+               "update_keeps_absent — an Update URR changes the method / information it carries and nothing else (so later reports keep the IE selection last asked for); report_goes_to_owner — whatever a notification carries (downlink-data reports and usage reports in any number and order) every datagram it causes goes to the destination of the node owning the reporting session at that moment, none elsewhere; "
                "unknown sessions/URRs dropped without touching the rest; groups_keys_nodup / mem_seids / groups_own / groupOf_other / groups_total — for every REPORT multicast (any number of reports, sessions interleaved in any way) "
                "each session with a report gets exactly one notification carrying exactly its own reports in message order, independent of the other sessions' reports, nothing lost or doubled "
                "(Model/Krep.lean, the function the krep driver runs). External predicate on the ctl stream: every usage report sent is one the data plane produced for that session in this event, "
@@ -291,7 +291,7 @@ PROPS["C15"] = dict(
                "induction over all event lists; ADD/DEL change exactly the addressed registration; invariants: one group per period, no empty group, no pair twice); a tick of period p queries "
                "exactly the URRs registered with p, each once, and nothing when there are none (tick_exact_run); a period's ticker exists iff a URR uses it; CLOSE releases all; "
                "batching: for every list and every limit n>0 the requests are non-empty, at most n long and concatenate to the list; each returned report is delivered once to its own "
-               "session flagged PERIO. Tie: S-perio on the real server and the real driver batching; the spec-level predicate is evaluated on the implementation's own queries.",
+               "session flagged PERIO. Tie: S-perio on the real server and the real driver batching; the spec-level predicate is evaluated on the implementation's own queries. batched_answers_each_once — when the data plane answers each request with one report per URR it names, the concatenation of the answers is one report per registered URR, in order, for every number of URRs (exact multiples of the batch size included).",
     level_note="Trusted: Lean kernel; hand-written Model/Perio.lean (checked against the real server each run, not proved equal); timers as events. "
                "Outside the hypothesis (same URR under two periods) DEL removes the pair from one group only, chosen by map order — noted, not claimed.",
 )
@@ -364,7 +364,7 @@ PROPS["C17"] = dict(
                "constructor-only field or a listed exception (same for the periodic server and its goroutine); confined_no_conflict — confinement excludes every conflicting pair for every schedule; "
                "producers_guarded / no_close_under_senders — every foreign send into the loop's queues is a select with the loop's done channel and no channel with foreign senders is closed; "
                "stop_no_fault / stop_releases_producers — in the stop-protocol transition system no notification faults and none stays blocked once the loop has ended, for every interleaving "
-               "(old_protocol_faults: the pre-repair protocol has a faulting one); fifo_exactly_once. Tie: T1 each run + S-stop stress under the race detector.",
+               "(old_protocol_faults: the pre-repair protocol has a faulting one); fifo_exactly_once. Tie: T1 each run + S-stop stress under the race detector. no_other_synchronisation — on the regenerated facts the module uses no mutex, atomic, sync.Pool, Once or Cond (only sync.WaitGroup): ownership and channel hand-over are the whole synchronisation story the table has to cover.",
     level_note="Trusted: Lean kernel; the extractor's call-graph over-approximation; the rule file; the race detector only supports the search. Fixed: send on closed channel after Stop (two sites). "
                "Not covered: races inside go-nl / go-pfcp / logrus.",
 )
@@ -378,7 +378,7 @@ PROPS["C18"] = dict(
     level_text="Kernel-checked (Props/C18.lean): acyclic_progress — with an acyclic waits-for relation some process can always move; on the REGENERATED topology graph_has_cycle / ticker_cycle exhibit the two "
                "cycles (event loop <-> periodic server over evtCh/srCh; periodic server <-> ticker goroutine over stopCh/evtCh) and only_known_cycle proves the rest of the graph acyclic; "
                "wedge_stuck / wedge_reachable — for ALL capacities E, R the two-process system reaches a state in which both are blocked for ever (schedule constructed from E and R); "
-               "loop_idle_releases — with the loop at its select a blocked periodic server is always released. THE PROPERTY DOES NOT HOLD OF THE CODE: recorded as known findings; the S-wedge scenario replays it.",
+               "loop_idle_releases — with the loop at its select a blocked periodic server is always released. THE PROPERTY DOES NOT HOLD OF THE CODE: recorded as known findings; the S-wedge scenario replays it. blocking_is_channels_only — on the regenerated facts the module has no mutex, read-write lock or condition variable: the channel waits-for graph is complete as a model of blocking.",
     level_note="Known findings (not repaired: design change): perioLoopCycle, perioTickerCycle. The check alarms on any OTHER cycle, any other wedge, or when the facts stop matching.",
 )
 
